@@ -11,11 +11,13 @@ pub open spec fn index_ok(idx: Seq<Entry<usize>>, rs: Seq<Option<Range<u64>>>) -
     c08_post(idx, index_input(rs))
 }
 
-// ASSUMED contract on the dependency range_map::RangeMap::get (binary search over the sorted,
-// disjoint vector): Some(v) iff some stored range contains the address, and v is that entry's value.
+// Contract of the dependency range_map::RangeMap::get (binary search over the sorted, disjoint vector):
+// Some(v) iff some stored range contains the address, and v is that entry's value.  Proved on the crate's
+// source by unit dep_range_map, given the representation invariant required here.
 impl<V> RangeMap<u64, V> {
     #[verifier::external_body]
     pub fn get(&self, a: u64) -> (r: Option<&V>)
+        requires disjoint_sorted(self.elts@),     // RangeMap's representation invariant; proved sufficient in unit dep_range_map
         ensures
             match r {
                 Some(v) => exists|k: int| 0 <= k < self.elts@.len() && (#[trigger] self.elts@[k]).1 == *v && rcontains(self.elts@[k].0, a),
